@@ -116,6 +116,10 @@ def correspondence(ctx):
     skipped = 0
     def take(c, obs, origin):
         nonlocal skipped
+        if c.get("repeat"):
+            res.count("repeated-measurement points" + (" (x too)" if c["repeat"].get("x") else ""))
+        single = origin is c
+        c = obs.get("eff_case", c)
         if c.get("malformed") or c.get("large_x"):
             return
         if obs.get("exn_type") == "RuntimeError":
@@ -131,7 +135,7 @@ def correspondence(ctx):
             return
         res.evaluations += 1
         res.count("model:" + c["model"] + (":deg{}".format(c["deg"]) if c["model"] == "polynomial" else ""))
-        res.count("mode:" + (c["mode"] if origin is c else "multi" if origin["kind"] == "multi" else "history:" + origin["holder"]))
+        res.count("mode:" + (c["mode"] if single else "multi" if origin["kind"] == "multi" else "history:" + origin["holder"]))
         res.count("xrange:" + ("pair" if isinstance(c["xrange"], list) else "whole"))
         res.count("yerr:" + ("none" if c["yerr"] is None else "per-point" if isinstance(c["yerr"], list) else "common")
                   + (":zeros-outside-range" if c.get("pattern") else ""))
@@ -294,6 +298,7 @@ def check_oracle(case, obs=None):
     if not fc.in_domain(case):
         return None
     obs = obs or fc.run_case(case, observe_result=True)
+    case = obs.get("eff_case", case)
     if case.get("malformed"):
         return None           # rejected requests are C06's business; here they only sit between the fits of a history
     if obs.get("exn_type") == "RuntimeError" or fc.numerically_lost(case, obs):
